@@ -403,10 +403,11 @@ func MergeConfig(a, b *Config) *Config {
 	if b.DisableCoordinates {
 		result.DisableCoordinates = true
 	}
-	if b.Tags != nil {
-		if result.Tags == nil {
-			result.Tags = make(map[string]string)
-		}
+	if a.Tags != nil || b.Tags != nil {
+		// Build a fresh map: result is a shallow copy of a, and writing
+		// into result.Tags would modify a's map.
+		result.Tags = make(map[string]string, len(a.Tags)+len(b.Tags))
+		maps.Copy(result.Tags, a.Tags)
 		maps.Copy(result.Tags, b.Tags)
 	}
 	if b.BindAddr != "" {
@@ -516,6 +517,12 @@ func MergeConfig(a, b *Config) *Config {
 		result.BroadcastTimeout = b.BroadcastTimeout
 	}
 	result.EnableCompression = b.EnableCompression
+	if b.ValidateNodeNames {
+		result.ValidateNodeNames = true
+	}
+	if b.MsgpackUseNewTimeFormat {
+		result.MsgpackUseNewTimeFormat = true
+	}
 
 	// Copy the event handlers
 	result.EventHandlers = make([]string, 0, len(a.EventHandlers)+len(b.EventHandlers))
